@@ -344,6 +344,8 @@ impl MemorySideCache {
 
 impl Aml for MemorySideCache {
     fn to_aml_bytes(&self, sink: &mut dyn AmlSink) {
+        // the number of SMBIOS handles is a 16-bit field
+        assert!(self.smbios_handles.len() <= 65535);
         sink.word(HmatStructureType::MemorySideCache as u16);
         sink.word(0); // reserved
         sink.dword(self.len() as u32);
